@@ -982,6 +982,7 @@ func (it *stringIter) next(fr *frame) tuple {
 func (m *Machine) rangeIter(x value, t types.Type) iter {
 	switch x := x.(type) {
 	case *omap:
+		m.raceMap(x, false)
 		return &mapIter{om: x, start: m.mapRangeStart(x)}
 	case string, symstr:
 		return &stringIter{b: strBytes(x)}
